@@ -44,6 +44,7 @@ ATTR_VALUES = (None, True, False, 0, 1, 1.0, 0.0, 7, -3, 2.5, -0.25, 100.0, 'x',
                {'meta': {'abstract': 'yes', 'name': 'n', 'type': 't'}}, '10', '-3', '2.50',
                [[0, 0, 0], [0, 0, 0]], {'a': [1, 2], 'b': [1, 2]}, [{'k': 1}, {'k': 1}],
                [{'name': 'timeout', 'value': 30}, {'name': 'x', 'value': 1}], {'m': [{'name': 'a', 'value': 1}]}, {'name': 'n', 'value': 2},
+               'C:\\new\\bin', 'a\\rb', '\\\\n', 'tab\\t', {'type': 'panel', 'children': [1]}, {'type': 'and', 'operands': ['x']},
                {}, [[]], [[], []], {'k': {}}, {'k': []}, [{}], [0], [False], {'k': None}, [1.0], {'k': 0.0})
 
 # attribute names that coincide with keys / keywords the formats use for something else
